@@ -83,8 +83,8 @@ Definition Parse_bt (bt : option (table * bool)) (S : nat) (fuel : nat) (w : lis
   | PHang => PHang
   end.
 
-Definition Parse (G : gram) (fuel : nat) (w : list token) : pres (list prod) :=
-  Parse_bt (BuildParsingTable G) (start G) fuel w.
+Definition Parse (G : gram) (O : oracle) (fuel : nat) (w : list token) : pres (list prod) :=
+  Parse_bt (BuildParsingTable G O) (start G) fuel w.
 
 (** * ParseAndBuildAST *)
 Inductive tree := Leaf (a : nat) (lexeme : nat) | Node (A : nat) (p : prod) (ch : list tree).
@@ -121,8 +121,8 @@ Definition ParseAndBuildAST_bt (bt : option (table * bool)) (S : nat) (fuel : na
   | PHang => PHang
   end.
 
-Definition ParseAndBuildAST (G : gram) (fuel : nat) (w : list token) : pres (option tree) :=
-  ParseAndBuildAST_bt (BuildParsingTable G) (start G) fuel w.
+Definition ParseAndBuildAST (G : gram) (O : oracle) (fuel : nat) (w : list token) : pres (option tree) :=
+  ParseAndBuildAST_bt (BuildParsingTable G O) (start G) fuel w.
 
 Fixpoint yield (t : tree) : list token :=
   match t with
